@@ -471,7 +471,15 @@ fn eval(a: &[String]) -> String {
       // eight characters of instants (every 37 h 11 min over ~3 years, incl. 23:xx) against the four pillars of the instant-level view
       let mut t = SolarTime::from_ymd_hms(2023, 1, 1, 23, 30, 0);
       let mut out = "NONE".to_string();
-      for _ in 0..700 {
+      // plus 00:10 and 23:50 of every Jie day of 2023..2025 (before / after the Jie instant)
+      let mut ts: Vec<SolarTime> = Vec::new();
+      for _ in 0..700 { ts.push(t); t = t.next(37 * 3600 + 660); }
+      for y in 2023isize..=2025 { for k in 0..12isize {
+        let j = SolarTerm::from_index(y, 1 + 2 * k).get_julian_day().get_solar_day();
+        ts.push(SolarTime::from_ymd_hms(j.get_year(), j.get_month(), j.get_day(), 0, 10, 0));
+        ts.push(SolarTime::from_ymd_hms(j.get_year(), j.get_month(), j.get_day(), 23, 50, 0));
+      } }
+      for t in ts {
         let v = t.get_sixty_cycle_hour();
         let e = v.get_eight_char();
         let l = t.get_lunar_hour().get_eight_char();
@@ -479,7 +487,6 @@ fn eval(a: &[String]) -> String {
         let got = [e.get_year().get_index(), e.get_month().get_index(), e.get_day().get_index(), e.get_hour().get_index()];
         let got2 = [l.get_year().get_index(), l.get_month().get_index(), l.get_day().get_index(), l.get_hour().get_index()];
         if want != got || want != got2 { out = format!("{}-{}-{} {}:{} pillars {:?}, eight characters {:?} / via the lunar hour {:?}", t.get_year(), t.get_month(), t.get_day(), t.get_hour(), t.get_minute(), want, got, got2); break; }
-        t = t.next(37 * 3600 + 660);
       }
       out
     }
@@ -506,16 +513,18 @@ fn eval(a: &[String]) -> String {
       let mut t = SolarTime::from_ymd_hms(2021, 3, 4, 22, 59, 30);
       let mut out = "NONE".to_string();
       'scan: for _ in 0..200 {
-        for n in [-100000isize, -61, -1, 0, 1, 30, 86400, 999999] {
+        for n in [-100000isize, -61, -1, 0, 1, 30, 366, 86400, 999999, if which == 0 { 731 } else { 31557600 }] {
           let bad = if which == 0 {
             let d = t.get_solar_day();
-            let v = d.get_sixty_cycle_day().next(n).get_solar_day();
-            let w = d.next(n);
-            v.get_julian_day().get_day() != w.get_julian_day().get_day()
+            let v = d.get_sixty_cycle_day().next(n);
+            let w = d.next(n).get_sixty_cycle_day();
+            v.get_solar_day().get_julian_day().get_day() != w.get_solar_day().get_julian_day().get_day() || v.get_year().get_index() != w.get_year().get_index()
+              || v.get_month().get_index() != w.get_month().get_index() || v.get_sixty_cycle().get_index() != w.get_sixty_cycle().get_index()
           } else {
-            let v = t.get_sixty_cycle_hour().next(n).get_solar_time();
-            let w = t.next(n);
-            v.get_julian_day().get_day() != w.get_julian_day().get_day()
+            let v = t.get_sixty_cycle_hour().next(n);
+            let w = t.next(n).get_sixty_cycle_hour();
+            v.get_solar_time().get_julian_day().get_day() != w.get_solar_time().get_julian_day().get_day() || v.get_year().get_index() != w.get_year().get_index()
+              || v.get_month().get_index() != w.get_month().get_index() || v.get_day().get_index() != w.get_day().get_index() || v.get_sixty_cycle().get_index() != w.get_sixty_cycle().get_index()
           };
           if bad { out = format!("{}-{}-{} {}:{}:{} next({})", t.get_year(), t.get_month(), t.get_day(), t.get_hour(), t.get_minute(), t.get_second(), n); break 'scan; }
         }
@@ -689,7 +698,41 @@ fn eval(a: &[String]) -> String {
             let want = if asc { (first + hi).rem_euclid(9) } else { (first - hi).rem_euclid(9) };
             if got != want { out = format!("{}-{}-{} {}:00 star index {} expected {} ({})", y, d.get_month(), d.get_day(), h, got, want, if asc { "ascending: on or after a winter solstice" } else { "descending" }); break 'scan; }
           }
-          d = d.next(if d.get_month() == 12 && d.get_day() >= 17 { 1 } else { 5 });
+          // every 5th day, but every day from 2 days before a solstice day to 2 days after it and from Dec 17 on
+          let near = |x: &SolarDay| { let k = d.subtract(*x); k >= -3 && k <= 2 };
+          d = d.next(if (d.get_month() == 12 && d.get_day() >= 17) || near(&w) || near(&s) || near(&w2) { 1 } else { 5 });
+        }
+      }
+      out
+    }
+    "week_new_scan" => {
+      // acceptance of SolarWeek::new (v[0] = 0) / LunarWeek::new (1) and the week count against ceil((offset of the 1st + month length) / 7)
+      use tyme4rs::tyme::lunar::{LunarYear, LunarWeek};
+      let mut out = "NONE".to_string();
+      'scan: for y in [2023isize, 2024, 2025, 1582] {
+        if v[0] == 0 {
+          for m in 1..=12usize {
+            let mon = SolarMonth::from_ym(y, m);
+            let wd = SolarDay::from_ymd(y, m, 1).get_week().get_index() as i64;
+            for start in 0..9usize {
+              let cnt = (((wd - start as i64).rem_euclid(7)) as usize + mon.get_day_count() + 6) / 7;
+              if start < 7 && mon.get_week_count(start) != cnt { out = format!("civil {}-{} start {}: week count {} expected {}", y, m, start, mon.get_week_count(start), cnt); break 'scan; }
+              for i in 0..9usize {
+                if SolarWeek::new(y, m, i, start).is_ok() != (start <= 6 && i < cnt) { out = format!("civil {}-{} index {} start {}: acceptance", y, m, i, start); break 'scan; }
+              }
+            }
+          }
+        } else {
+          for mon in LunarYear::from_year(y).get_months() {
+            let wd = mon.get_first_julian_day().get_week().get_index() as i64;
+            for start in 0..9usize {
+              let cnt = (((wd - start as i64).rem_euclid(7)) as usize + mon.get_day_count() + 6) / 7;
+              if start < 7 && mon.get_week_count(start) != cnt { out = format!("lunar {} {} start {}: week count {} expected {}", y, mon.get_month_with_leap(), start, mon.get_week_count(start), cnt); break 'scan; }
+              for i in 0..9usize {
+                if LunarWeek::new(y, mon.get_month_with_leap(), i, start).is_ok() != (start <= 6 && i < cnt) { out = format!("lunar {} {} index {} start {}: acceptance", y, mon.get_month_with_leap(), i, start); break 'scan; }
+              }
+            }
+          }
         }
       }
       out
